@@ -45,25 +45,91 @@ MAINS = {
 
 class SimClock(object):
     """naive local datetime; advanced by a script between commands and by a
-    small tick on every reading."""
+    small tick on every reading.  The zone of the simulated machine is a
+    standard offset plus, optionally, a DST rule ('north': DST from 29 March
+    02:00 to 25 October 03:00 standard time; 'south': from 4 October to 5 April)."""
 
     def __init__(self):
         self.now = _dt.datetime(2024, 1, 1, 12, 0, 0)
         self.tick = _dt.timedelta(microseconds=137)
-        self.readings = []        # (pid, value)   value = local time
-        self.utcoffset = _dt.timedelta(0)     # offset in effect NOW (standard offset + 1 h while DST is on)
-        self.has_dst = False                  # the zone has DST rules at all (time.daylight)
-        self.dst_on = False                   # ... and DST is in effect now (tm_isdst)
+        self.readings = []        # (pid, value, gseq)   value = local time
+        self.op_tick = None                   # simulated time that every system call takes (None: none)
+        self.std = _dt.timedelta(0)           # standard offset from UTC
+        self.rule = None                      # None | 'north' | 'south'
         self.nonlocal_reads = 0
+
+    def configure(self, utcoffset_s, dst):
+        """utcoffset_s: the offset in effect at the start time; dst: None or {'has': bool, 'on': bool}"""
+        eff = _dt.timedelta(seconds=utcoffset_s)
+        self.rule = None
+        self.std = eff
+        if dst and dst.get('has'):
+            on = bool(dst.get('on'))
+            self.std = eff - (_HOUR if on else _dt.timedelta(0))
+            for rule in ('north', 'south'):
+                if _rule_active(rule, self.now - (_HOUR if on else _dt.timedelta(0))) == on:
+                    self.rule = rule
+                    break
+            if self.rule is None:
+                self.rule = 'north' if on else 'south'
+
+    @property
+    def has_dst(self):
+        return self.rule is not None
+
+    def offset_for_local(self, d):
+        """UTC offset in effect at local wall-clock time d"""
+        if self.rule is not None:
+            try:
+                if _rule_active(self.rule, d - _HOUR):
+                    return self.std + _HOUR
+            except OverflowError:
+                pass
+        return self.std
+
+    def offset_for_utc(self, u):
+        if self.rule is not None:
+            try:
+                if _rule_active(self.rule, u + self.std):
+                    return self.std + _HOUR
+            except OverflowError:
+                pass
+        return self.std
+
+    @property
+    def utcoffset(self):
+        return self.offset_for_local(self.now)
+
+    @property
+    def dst_on(self):
+        return self.utcoffset != self.std
+
+    def op(self):
+        if self.op_tick:
+            try:
+                self.now = self.now + self.op_tick
+            except OverflowError:
+                pass
 
     def read(self):
         v = self.now
-        self.readings.append((K.cur.pid if K.cur else None, v))
+        self.readings.append((K.cur.pid if K.cur else None, v, K.gseq))
         try:
             self.now = self.now + self.tick
         except OverflowError:
             pass
         return v
+
+
+_HOUR = _dt.timedelta(hours=1)
+
+
+def _rule_active(rule, std_local):
+    """is DST in effect at this local STANDARD time under the rule?"""
+    y = std_local.year
+    if rule == 'north':
+        return _dt.datetime(y, 3, 29, 2) <= std_local < _dt.datetime(y, 10, 25, 2)
+    return std_local >= _dt.datetime(y, 10, 4, 2) or std_local < _dt.datetime(y, 4, 5, 2)
 
 
 CLOCK = SimClock()
@@ -92,7 +158,7 @@ class _DatetimeShim(object, metaclass=_DatetimeShimMeta):
         if tz is None:
             return v
         CLOCK.nonlocal_reads += 1
-        return (v - CLOCK.utcoffset).replace(tzinfo=_dt.timezone.utc).astimezone(tz)
+        return (v - CLOCK.offset_for_local(v)).replace(tzinfo=_dt.timezone.utc).astimezone(tz)
 
     @staticmethod
     def today():
@@ -101,13 +167,14 @@ class _DatetimeShim(object, metaclass=_DatetimeShimMeta):
     @staticmethod
     def utcnow():
         CLOCK.nonlocal_reads += 1
-        return CLOCK.read() - CLOCK.utcoffset
+        v = CLOCK.read()
+        return v - CLOCK.offset_for_local(v)
 
     @staticmethod
     def fromtimestamp(ts, tz=None):
         utc = _EPOCH + _dt.timedelta(seconds=ts)
         if tz is None:
-            return utc + CLOCK.utcoffset
+            return utc + CLOCK.offset_for_utc(utc)
         return utc.replace(tzinfo=_dt.timezone.utc).astimezone(tz)
 
 
@@ -132,7 +199,8 @@ class _DateShim(object, metaclass=_DateShimMeta):
 
     @staticmethod
     def fromtimestamp(ts):
-        return (_EPOCH + _dt.timedelta(seconds=ts) + CLOCK.utcoffset).date()
+        u_ = _EPOCH + _dt.timedelta(seconds=ts)
+        return (u_ + CLOCK.offset_for_utc(u_)).date()
 
 
 # ---- the time module: same clock, same zone ---------------------------------
@@ -145,7 +213,8 @@ _T = {'time': _time.time, 'time_ns': _time.time_ns, 'localtime': _time.localtime
 
 
 def _sim_epoch():
-    return (CLOCK.read() - CLOCK.utcoffset - _EPOCH).total_seconds()
+    v = CLOCK.read()
+    return (v - CLOCK.offset_for_local(v) - _EPOCH).total_seconds()
 
 
 def _struct(d, isdst, gmtoff, zone):
@@ -167,8 +236,10 @@ def w_localtime(secs=None):
         return _T['localtime']() if secs is None else _T['localtime'](secs)
     if secs is None:
         secs = _sim_epoch()
-    d = _EPOCH + _dt.timedelta(seconds=int(secs)) + CLOCK.utcoffset
-    return _struct(d, 1 if CLOCK.dst_on else 0, int(CLOCK.utcoffset.total_seconds()), 'SDT' if CLOCK.dst_on else 'SST')
+    u = _EPOCH + _dt.timedelta(seconds=int(secs))
+    off = CLOCK.offset_for_utc(u)
+    dst = off != CLOCK.std
+    return _struct(u + off, 1 if dst else 0, int(off.total_seconds()), 'SDT' if dst else 'SST')
 
 
 def w_gmtime(secs=None):
@@ -183,7 +254,7 @@ def w_mktime(t):
     if not K.active:
         return _T['mktime'](t)
     d = _dt.datetime(*t[:6])
-    return (d - CLOCK.utcoffset - _EPOCH).total_seconds()
+    return (d - CLOCK.offset_for_local(d) - _EPOCH).total_seconds()
 
 
 def w_strftime(fmt, t=None):
@@ -206,7 +277,7 @@ def w_asctime(t=None):
 
 def apply_zone():
     """time.timezone / altzone / daylight / tzname of the simulated machine (module attributes: set per case)"""
-    std = int(CLOCK.utcoffset.total_seconds()) - (3600 if CLOCK.dst_on else 0)
+    std = int(CLOCK.std.total_seconds())
     _time.timezone = -std
     _time.altzone = -(std + 3600) if CLOCK.has_dst else -std
     _time.daylight = 1 if CLOCK.has_dst else 0
@@ -258,10 +329,16 @@ def _fake_disk_partitions(all=False):
 
 
 def _mount_listing(self):
+    """what the partition listing (psutil.disk_partitions) reports: the mount table in its own order, minus the mounts whose
+    file-system type the listing filters out (ZFS datasets, overlay, sshfs, tmpfs ...: world['unlisted']) - os.path.ismount
+    still recognises those"""
     order = getattr(self, 'mount_order', None)
+    hidden = set(getattr(self, 'unlisted', None) or ())
     if order:
-        return [m for m in order if m in self.mounts] + [m for m in self.mounts if m not in order]
-    return list(self.mounts)
+        lst = [m for m in order if m in self.mounts] + [m for m in self.mounts if m not in order]
+    else:
+        lst = list(self.mounts)
+    return [m for m in lst if m not in hidden]
 
 
 vkernel.Kernel.mount_listing = _mount_listing
@@ -275,6 +352,7 @@ def install_seams():
         return
     _seams_installed = True
     vkernel.install()
+    K.op_hook = CLOCK.op
     put_clock.datetime = _DatetimeModuleShim
     empty_main.datetime = _DatetimeShim
     # ... and wherever else trashcli (now or after a change) holds the datetime module / class / date class
